@@ -78,6 +78,7 @@ class Native:
         and every string reachable from the arguments of the current case."""
         uni: dict[str, dict[int, Any]] = {}
         strs: dict[str, None] = {}
+        sets: dict[Any, None] = {}
         seen: set[int] = set()
 
         def walk(x: Any) -> None:
@@ -93,6 +94,8 @@ class Native:
                     walk(k)
                     walk(v)
             elif isinstance(x, (list, tuple, set, frozenset)):
+                if isinstance(x, (set, frozenset)) and all(not isinstance(v, (set, frozenset, list, dict)) for v in x):
+                    sets[frozenset(x)] = None     # a set of atoms is a value of the clause type 'set[Any]'
                 for v in x:
                     walk(v)
             elif hasattr(x, "__dict__") and not isinstance(x, type):
@@ -102,6 +105,8 @@ class Native:
         walk(args)
         self.universe = {k: list(v.values()) for k, v in uni.items()}
         self.universe["str"] = list(strs)
+        self.universe["Any"] = list(strs)
+        self.universe["set[Any]"] = list(sets)
 
     def snapshot_mutable(self) -> dict[int, dict[str, Any]]:
         snap: dict[int, dict[str, Any]] = {}
@@ -232,9 +237,10 @@ class Native:
             pre_uni = self.universe
             self.collect_universe([args, result])
             for tname, objs in pre_uni.items():
-                have = {id(o) for o in self.universe.get(tname, [])} if tname != "str" else set(self.universe.get(tname, []))
+                byval = tname in ("str", "Any", "set[Any]")
+                have = set(self.universe.get(tname, [])) if byval else {id(o) for o in self.universe.get(tname, [])}
                 for o in objs:
-                    if (o if tname == "str" else id(o)) not in have:
+                    if (o if byval else id(o)) not in have:
                         self.universe.setdefault(tname, []).append(o)
         out["raised"] = type(raised).__name__ if raised is not None else None
         out["result"] = safe_repr(result)
